@@ -27,7 +27,7 @@ LEVEL_ASSUMPTIONS = [
     "analytic comparison tolerance 5e-2 relative to max |state| (RK45 "
     "rtol=1e-3; wrong time grid or interpolator gives O(1))"]
 REQUIRED = {"multi_control_runs": 20, "direct_j_tables": 300,
-            "multi_run_ode_results": 60,
+            "multi_run_ode_results": 60, "hostile[glitch]": 5,
             "direct_j_control_dims[2]": 50, "runs_judged": 300,
             "full_length_results": 150,
             "failure_rows": 20, "multi_cycle_runs": 20,
@@ -480,12 +480,33 @@ def direct_j(ctx, rng):
 def hostile(ctx, rng):
     kind = str(rng.choice(["now", "after", "nan", "inf", "-inf", "9.9e9",
                            "grow", "nan-at-0", "square", "start1e9",
-                           "after-long", "shrinking", "timedep", "timedep"]))
+                           "after-long", "shrinking", "timedep", "timedep",
+                           "glitch", "glitch"]))
     steps = int(rng.choice([10, 11, 50, 500]))
     tmax = float(rng.choice([0.5, 5.0, 50.0]))
     t0 = float(rng.uniform(0.05, 0.9) * tmax)
     case = {"kind": "hostile", "what": kind, "steps": steps, "tmax": tmax,
             "t0": t0}
+    if kind == "glitch":
+        # the controller misbehaves only in a narrow window around one
+        # output time of a dense grid: the integrator's own (few, long)
+        # steps never see it, the output rows do
+        steps = int(rng.choice([501, 1001, 2001]))
+        tmax = 50.0
+        row = int(rng.integers(steps // 5, steps - 2))
+        tg = row * tmax / (steps - 1)
+        bad = float(rng.choice([1e50, -1e50, math.inf, math.nan, 1e10]))
+
+        def glitch(state, t, params, out, tg=tg, bad=bad):
+            out[0] = bad if abs(t - tg) < 1e-3 else 0.05 * state[0]
+        A = [[-0.05, -0.3], [0.3, -0.05]]
+        start = [float(rng.uniform(-1, 1)), float(rng.uniform(-1, 1))]
+        case = dict(case, steps=steps, tmax=tmax, row=row, bad=repr(bad),
+                    start=start)
+        run_case(ctx, (lin_system(A, [0, 1]), glitch, 1), start, steps, tmax,
+                 None, case)
+        ctx.count("hostile[glitch]")
+        return
     if kind == "shrinking":
         A = [[-0.1, -1.0], [1.0, -0.1]]
         start = [0.3, -0.2]
@@ -605,6 +626,15 @@ def replay(ctx, case):
         elif what == "start1e9":
             run_case(ctx, (lin_system(A, [0, 1]), ctrl_zero, 1),
                      case["start"], case["steps"], case["tmax"], None, case)
+        elif what == "glitch":
+            tg = case["row"] * case["tmax"] / (case["steps"] - 1)
+            bad = float(case["bad"])
+
+            def glitch(state, t, params, out):
+                out[0] = bad if abs(t - tg) < 1e-3 else 0.05 * state[0]
+            run_case(ctx, (lin_system([[-0.05, -0.3], [0.3, -0.05]], [0, 1]),
+                           glitch, 1), case["start"], case["steps"],
+                     case["tmax"], None, case)
         else:
             kind = "after" if what == "after-long" else what
             run_case(ctx, (lin_system(A, [0, 1]),
